@@ -100,6 +100,11 @@ def run_case(case, env, res, tmpdir, state):
         res.count("skipped: does not fit terminal")
         return
     spec = "1.1" + case["alpha"] + (("+" + case["stylespec"]) if case["stylespec"] else "")
+    if case.get("abort_at"):
+        # a render of the same image interrupted (Ctrl-C) somewhere inside the style's
+        # render function comes first: what it leaves behind must not show in the next one
+        if aborted_render(image, case["abort_at"]):
+            res.count("renders preceded by an interrupted render")
     if how == "str":
         out = str(image)
     elif how == "format":
@@ -139,6 +144,48 @@ def run_case(case, env, res, tmpdir, state):
             case,
         )
     image.close()
+
+
+def aborted_render(image, k):
+    """str(image) with a KeyboardInterrupt raised at the k-th line executed inside the
+    style's _render_image (and the functions nested in it); True if it was interrupted."""
+    import sys
+    import types
+
+    mon = sys.monitoring
+    TOOL = 2
+    codes = []
+
+    def collect(code):
+        codes.append(code)
+        for c in code.co_consts:
+            if isinstance(c, types.CodeType):
+                collect(c)
+
+    collect(type(image)._render_image.__code__)
+    n = [0]
+
+    def cb(code, line):
+        n[0] += 1
+        if n[0] == k:
+            raise KeyboardInterrupt
+
+    mon.use_tool_id(TOOL, "vf-c01-abort")
+    try:
+        mon.register_callback(TOOL, mon.events.LINE, cb)
+        for c in codes:
+            mon.set_local_events(TOOL, c, mon.events.LINE)
+        try:
+            str(image)
+            return False
+        except KeyboardInterrupt:
+            return True
+        finally:
+            for c in codes:
+                mon.set_local_events(TOOL, c, 0)
+            mon.register_callback(TOOL, mon.events.LINE, None)
+    finally:
+        mon.free_tool_id(TOOL)
 
 
 def run_iterate(case, image, env, res, cols, rows):
@@ -246,6 +293,8 @@ def gen_random(rnd, persona):
         case["rff"] = rnd.choice([None, True, False])
     if style != "block" and rnd.random() < 0.2:
         case["set_method"] = rnd.choice(["lines", "whole", "WHOLE"] + (["anim"] if style == "iterm2" else []))
+    if rnd.random() < 0.15:
+        case["abort_at"] = rnd.randint(3, 400)
     return case
 
 
